@@ -1001,7 +1001,10 @@ impl<'a, 'b, W: Write> Serializer for &'a mut YamlSerializer<'b, W> {
                 if self.prefer_block_scalars {
                     // If it's already multiline and long, emit literal block style for readability.
                     let char_len = v.chars().count();
-                    if char_len > self.folded_wrap_col {
+                    if v.bytes().all(|b| b == b'\n') {
+                        // Nothing but line breaks: there is no text to show, and a clipped
+                        // block scalar without content reads back empty. Leave it to quoting.
+                    } else if char_len > self.folded_wrap_col {
                         self.pending_str_style = Some(StrStyle::Literal);
                         self.pending_str_from_auto = true;
                     } else {
@@ -1117,8 +1120,8 @@ impl<'a, 'b, W: Write> Serializer for &'a mut YamlSerializer<'b, W> {
 
                     // Emit body lines. For non-empty content, write each line exactly once.
                     // For keep chomping (>=2), append (trailing_nl - 1) visual empty lines.
-                    // Special case: empty original content with at least one trailing newline
-                    // should produce a single empty content line (tests expect this for "\n").
+                    // Special case: original content made of line breaks only produces one
+                    // empty content line per line break (tests expect this for "\n").
                     // Precompute body indent string once for the entire block
                     let mut indent_buf: String = String::new();
                     let spaces = self.indent_step * body_base;
@@ -1131,10 +1134,11 @@ impl<'a, 'b, W: Write> Serializer for &'a mut YamlSerializer<'b, W> {
                     let indent_str = indent_buf.as_str();
 
                     if content.is_empty() {
-                        if trailing_nl >= 1 {
+                        // Only line breaks: under keep chomping every empty line stands for
+                        // one of them (a single one is a single empty line, as before).
+                        for _ in 0..trailing_nl {
                             self.out.write_str(indent_str)?;
                             self.at_line_start = false;
-                            // write a single empty content line
                             self.newline()?;
                         }
                     } else {
